@@ -24,11 +24,19 @@ def _kinds(sc):
 
 
 def _angular(atoms, positions, momenta):
-    com = np.average(positions, axis=0, weights=atoms.get_masses()) if len(positions) else np.zeros(3)
+    """-> (L about the centre of mass, tolerance): the tolerance grows with the condition number of the inertia
+    tensor (the statement excludes collinear geometries; nearly collinear ones amplify rounding)."""
+    m = atoms.get_masses()
+    com = np.average(positions, axis=0, weights=m) if len(positions) else np.zeros(3)
     r = positions - com
     L = np.sum(np.cross(r, momenta), axis=0)
     scale = float(np.sum(np.linalg.norm(r, axis=1) * np.linalg.norm(momenta, axis=1))) + 1e-300
-    return L, scale
+    inertia = np.zeros((3, 3))
+    for mi, ri in zip(m, r):
+        inertia += mi * (np.dot(ri, ri) * np.eye(3) - np.outer(ri, ri))
+    ev = np.linalg.eigvalsh(inertia)
+    cond = ev[-1] / ev[0] if ev[0] > 0 else np.inf
+    return L, scale * max(1e-8, 1e-12 * cond)
 
 
 class C12Common:
@@ -105,11 +113,11 @@ class C12Monitor(Monitor, C12Common):
             return
         atoms = w.atoms
         p = ev["momenta"]
-        L, scale = _angular(atoms, atoms.positions, p)
+        L, tol = _angular(atoms, atoms.positions, p)
         w.result.count("probe.fixrot_momenta_checked")
-        if np.max(np.abs(L)) > 1e-8 * scale:
+        if np.isfinite(tol) and np.max(np.abs(L)) > tol:
             self.violate(w, "angular_momentum_not_removed", f"driver={w.sc['driver']}|move=hmc|constraints={self.kinds}",
-                         f"|L|={np.abs(L).max():.3e} (scale {scale:.3e}) after momentum refresh")
+                         f"|L|={np.abs(L).max():.3e} (tolerance {tol:.3e}) after momentum refresh")
         if w.gen is not None and w.gen.normals:
             z = w.gen.normals[-1]
             if z.shape == p.shape:
@@ -136,17 +144,18 @@ class C12FBMonitor(FBMonitor, C12Common):
         w.result.cover.add(f"{w.sc['driver']}|fbstep|{self.kinds}")
         self.check_positions(w, "after_step", ctx)
         if self.has_rot and len(w.atoms) > 1:
-            dr = post["positions"] - pre["positions"]
-            m = w.atoms.get_masses()[:, None]
-            L, scale = _angular(w.atoms, pre["positions"], m * dr)
+            # the momenta the constraint was handed and adjusted (the driver builds them from its own scaling masses,
+            # which need not be the atoms' masses) are still on the atoms after the step
+            pmom = np.array(w.atoms.get_momenta(), copy=True)
+            L, tol = _angular(w.atoms, pre["positions"], pmom)
             w.result.count("probe.fixrot_fb_checked")
-            if np.max(np.abs(L)) > 1e-8 * scale:
+            if np.isfinite(tol) and np.max(np.abs(L)) > tol:
                 self.violate(w, "angular_momentum_not_removed", ctx + f"|constraints={self.kinds}",
-                             f"|L|={np.abs(L).max():.3e} (scale {scale:.3e}) of the step displacement")
+                             f"|L|={np.abs(L).max():.3e} (tolerance {tol:.3e}) of the step momenta")
             if self.kinds == "FixRot":
                 mc = w.mc
                 unadj = mc.zeta * mc.delta * np.power(np.min(mc.shaped_masses) / mc.shaped_masses, mc.masses_scaling_power)
-                dP = np.sum(m * dr, axis=0) - np.sum(mc.shaped_masses * unadj, axis=0)
+                dP = np.sum(pmom, axis=0) - np.sum(mc.shaped_masses * unadj, axis=0)
                 if np.max(np.abs(dP)) > 1e-8 * (np.sum(np.abs(mc.shaped_masses * unadj)) + 1e-300):
                     self.violate(w, "linear_momentum_changed_by_fixrot", ctx + f"|constraints={self.kinds}",
                                  f"total momentum changed by {np.abs(dP).max():.3e}")
@@ -191,6 +200,9 @@ class C12(HistoryCampaign):
               "steps": [{"n": rnd.randint(1, 25)}]}
         if rnd.random() < 0.5:
             sc["params"]["masses_scaling_power"] = gen.rfloat(rnd, 0.0, 1.0, 3)
+        if rnd.random() < 0.4:
+            sc["params"]["update_masses"] = ([gen.logu(rnd, 0.5, 300.0) for _ in range(n)] if rnd.random() < 0.5
+                                             else [[gen.logu(rnd, 0.5, 300.0) for _ in range(3)] for _ in range(n)])
         return sc
 
     def make_monitors(self, sc):
